@@ -14,7 +14,7 @@
 * exn_kind_defs : list (string * string) — (NAME, ARG) of every `var NAME = CelloEmpty(ARG);` in
   src/Exception.c (the library's exception kinds)
 A macro/function that is not found emits None (= broken obligation)."""
-import re
+import re, os
 
 TOK = re.compile(r'"(?:[^"\\]|\\.)*"|[A-Za-z_][A-Za-z0-9_]*|\d+|->|\+\+|--|>=|<=|==|!=|&&|\|\||\.\.\.|\S')
 
@@ -68,6 +68,34 @@ def generate(repo, emit, src, func_body):
                      ('exn_src_error', r'static\s+void\s+Exception_Error\s*\(\s*struct\s+Exception\s*\*\s*e\s*\)\s*\{')):
         b = func_body(c, hdr)
         bodies[coq] = None if b is None else norm(b)
+
+    # translation of the five state-changing functions (and the two helpers they call) into Gallina
+    # state transformers: tools/exn_symex.py.  ExnProofs.v proves each equal to the model's function.
+    try:
+        import exn_symex
+        raw = {}
+        for cname, key in (('exception_try', 'exn_src_try'), ('exception_try_end', 'exn_src_try_end'),
+                           ('exception_try_fail', 'exn_src_try_fail'), ('exception_throw', 'exn_src_throw'),
+                           ('exception_catch', 'exn_src_catch'), ('Exception_Buffer', 'exn_src_buffer'),
+                           ('Exception_Len', 'exn_src_len')):
+            raw[cname] = bodies.get(key)
+        text = exn_symex.gallina(raw)
+        # the module must typecheck on its own: a term Coq rejects would take all of Generated.v with it
+        import tempfile, subprocess, shutil
+        td = tempfile.mkdtemp(prefix='exn_tr_')
+        try:
+            with open(os.path.join(td, 'T.v'), 'w') as fh:
+                fh.write('From Coq Require Import List Arith NArith ZArith String Ascii.\nImport ListNotations.\n'
+                         'Local Open Scope nat_scope.\nDefinition exc_max_depth : nat := 0.\n' + text + '\n')
+            r = subprocess.run(['coqc', 'T.v'], cwd=td, stdout=subprocess.PIPE, stderr=subprocess.STDOUT, timeout=120, text=True)
+            if r.returncode != 0:
+                raise exn_symex.Untranslatable('translated module does not typecheck: ' + r.stdout[-300:].replace('\n', ' '))
+        finally:
+            shutil.rmtree(td, ignore_errors=True)
+        emit('exn_translation', text)
+    except Exception as ex:          # outside the fragment: no definition = broken obligation
+        emit('exn_translation', None)
+        print('exn_translation: %s' % ex)
 
     cb = bodies.get('exn_src_catch')
     if cb is None:
